@@ -135,6 +135,7 @@ Applicable(c, r) ==
     [] c = "ExactlyK"        -> HasSol(r) /\ r.cls \in KCls /\ KGiven(r) /\ ~EmptyAllowed(r)
                                 /\ r.starts = <<>> /\ r.ends = <<>>
     [] c = "NoEmptyRoute"    -> HasSol(r) /\ ~EmptyAllowed(r)
+    [] c = "EmptyRemovalIsAFilter" -> HasSol(r) /\ "keep_routes" \in DOMAIN r
     [] c = "GetSolutionReturns" -> Solved(r)
     [] c = "FDExact"         -> HasSol(r) /\ r.cls \in FDCls /\ WeightsAligned(r)
     [] c = "WeightTypes"     -> HasSol(r) /\ r.cls \notin CoverCls /\ r.has_weights = TRUE
@@ -184,6 +185,14 @@ Holds(c, r) ==
     [] c = "AtMostK"    -> Cardinality(NonEmptyIdx(r)) <= r.k       \* (empty layers of a weight-superset model are not routes)
     [] c = "ExactlyK"   -> Len(Routes(r)) = r.k
     [] c = "NoEmptyRoute" -> \A i \in 1..Len(Routes(r)) : Len(Routes(r)[i]) >= 1
+    [] c = "EmptyRemovalIsAFilter" ->
+         \* get_solution(remove_empty_paths / remove_empty_walks = True) is get_solution(... = False) without its empty routes:
+         \* same routes in the same order, each with the weight (and slack) of its own layer
+         LET keep == r.keep_routes
+             idx == SelectSeq([i \in 1..Len(keep) |-> i], LAMBDA i : keep[i] # <<>>)
+         IN /\ r.drop_routes = [j \in 1..Len(idx) |-> keep[idx[j]]]
+            /\ Len(r.keep_weights) = Len(keep) /\ r.drop_weights = [j \in 1..Len(idx) |-> r.keep_weights[idx[j]]]
+            /\ (r.keep_slacks # <<>> => (Len(r.keep_slacks) = Len(keep) /\ r.drop_slacks = [j \in 1..Len(idx) |-> r.keep_slacks[idx[j]]]))
     [] c = "GetSolutionReturns" -> r.got_solution = TRUE /\ r.sol_exc = "none"
     [] c = "FDExact"    -> \A x \in Required(r) :
                               Abs(Expl(r, x) - F(r)[x]) <= Tol(r) * Max2(1, Trav(r, x))
@@ -234,7 +243,7 @@ Holds(c, r) ==
 ClausesOf(p) ==
   CASE p = "C01" -> {"NodesOfG", "EdgesOfG", "StartsOK", "EndsOK", "SimpleIfDAG", "RoutesKey",
                      "OneWeightPerRoute", "OneSlackPerRoute", "NonNegative", "AtMostK", "ExactlyK",
-                     "NoEmptyRoute", "GetSolutionReturns"}
+                     "NoEmptyRoute", "GetSolutionReturns", "EmptyRemovalIsAFilter"}
     [] p = "C02" -> {"FDExact", "WeightTypes", "GetSolutionReturns", "OneWeightPerRoute", "NonNegative"}
     [] p = "C03" -> {"Succeeds", "PlantedValid", "FDExact", "NodesOfG", "EdgesOfG", "StartsOK", "EndsOK",
                      "ConstraintsHonoured", "ObjIsCount", "OneWeightPerRoute"}
